@@ -149,7 +149,7 @@ func (env *specEnv) eval(e SExpr) TV {
 				env.fail("index on slice of unknown element type")
 			}
 			es := u.sortOf(st.Elem())
-			return TV{T: fmt.Sprintf("(select (select %s (sref %s)) (+ (soff %s) %s))", env.heap("A|"+es), b.T, b.T, i.T), Sort: es, Typ: st.Elem()}
+			return TV{T: fmt.Sprintf("(select (select %s (sref %s)) (+ (soff %s) %s))", env.heap(u.arrKey(st.Elem())), b.T, b.T, i.T), Sort: es, Typ: st.Elem()}
 		case "Int":
 			if b.Typ != nil {
 				if mt, ok := b.Typ.Underlying().(*types.Map); ok {
@@ -464,6 +464,9 @@ func (env *specEnv) evalSel(x *SSel) TV {
 	}
 	// representation invariants of heap values read by a contract (unconditional facts)
 	if !strings.Contains(cur.T, "q_") {
+		if named := namedOf(t); named != nil && env.fc.e.contracts.FieldInv[qualName(named)+"."+x.Name] {
+			env.fc.sc.assume(nonNilTerm(cur.T, cur.Sort))
+		}
 		switch cur.Sort {
 		case "Slice":
 			env.fc.sc.assume(fmt.Sprintf("(and (<= 0 (soff %s)) (<= 0 (sllen %s)) (<= 0 (sref %s)) (=> (= (sref %s) 0) (= (sllen %s) 0)))", cur.T, cur.T, cur.T, cur.T, cur.T))
@@ -557,6 +560,11 @@ func (env *specEnv) evalCall(x *SCall) TV {
 			st = env.st
 		}
 		return TV{T: fmt.Sprintf("(and (> %s 0) (< %s %s))", refOf(a), refOf(a), st.alloc), Sort: "Bool"}
+	case "local": // local(x): the slice or map x has not become reachable from the heap or a callee
+		argn(1)
+		a := env.eval(x.Args[0])
+		r := refOf(a)
+		return TV{T: fmt.Sprintf("(or (= %s 0) (not (select %s %s)))", r, env.heap("ESC"), r), Sort: "Bool"}
 	case "buflen": // buflen(w): bytes written to buffer object (pointer or interface payload)
 		argn(1)
 		a := env.eval(x.Args[0])
